@@ -4,12 +4,23 @@
    3. the same for v2 (AEAD);
    4. corollaries per backend under [laws O]. *)
 From Coq Require Import List NArith String Bool Lia Arith.
-From PV Require Import Bytes Result Pae Ctr Oracle Local.
+From PV Require Import Bytes Result Rs Pae Ctr Oracle Local.
 Import ListNotations.
 Set Default Timeout 60.
 Local Open Scope list_scope.
 
 (* ---------- list arithmetic ---------- *)
+
+Lemma app_eq_len_l (a b c d : bytes) : length a = length c -> a ++ b = c ++ d -> a = c /\ b = d.
+Proof.
+  revert c. induction a as [|x a IH]; intros [|y c] H E; cbn in *; try discriminate; [auto|].
+  inversion E; subst. destruct (IH c) as [-> ->]; [lia|assumption|auto].
+Qed.
+Lemma app_eq_len_r (a b c d : bytes) : length b = length d -> a ++ b = c ++ d -> a = c /\ b = d.
+Proof.
+  intros H E. apply app_eq_len_l; [|exact E].
+  apply (f_equal (@length _)) in E. rewrite !app_length in E. lia.
+Qed.
 
 Lemma take_app_exact (a b : bytes) n : n = length a -> take n (a ++ b) = a.
 Proof.
@@ -246,6 +257,9 @@ Section Instances.
     unfold lc_local_unseal. unseal_inst.
     - destruct (Nat.ltb_spec (length p) 80); [reflexivity|lia].
     - destruct (Nat.ltb_spec (length p) 80); [lia|].
+      (* the guard len >= 80 is what makes `len - 48`, `split_at_mut(len - 48)` and `split_at_mut(32)` safe *)
+      rewrite rs_sub_ok by lia. rewrite rs_split_at_ok by lia.
+      rewrite rs_split_at_ok by (rewrite take_length_le; lia).
       unfold ks_of. destruct (lc_keys O key _) as [[ek n2] ak]. reflexivity.
   Qed.
 
@@ -380,6 +394,25 @@ Section Instances.
     - intros (-> & n & c & t & -> & Ln & Lt & Hopen). cbn [isnil negb].
       rewrite app_assoc. rewrite <- Lt at 1. rewrite split_last_app. cbn [ok_or bind].
       rewrite <- Ln at 1. rewrite split_first_app. cbn [ok_or bind]. rewrite Hopen. reflexivity.
+  Qed.
+
+  (* any other tag on the same nonce and ciphertext: refused with the authentication error (uses only the
+     AEAD fact that at most one tag opens a given key, nonce, associated data and ciphertext) *)
+  Theorem v2_tag_tamper key enc n c t t' f m :
+    length n = 24 -> length t = 16 -> length t' = 16 ->
+    v2_local_unseal O key enc (n ++ c ++ t) f [] = Ok m -> t' <> t ->
+    v2_local_unseal O key enc (n ++ c ++ t') f [] = Err CryptoError.
+  Proof.
+    intros Ln Lt Lt' Hacc Hne.
+    assert (Hopen : xcp_open O key n (v2_pre enc n f) c t = Some m).
+    { apply v2_accept_iff in Hacc as (_ & n2 & c2 & t2 & E & Ln2 & Lt2 & Ho).
+      apply app_eq_len_l in E as [<- E]; [|congruence].
+      apply app_eq_len_r in E as [<- <-]; [exact Ho|congruence]. }
+    unfold v2_local_unseal. cbn [isnil negb].
+    rewrite app_assoc. rewrite <- Lt' at 1. rewrite split_last_app. cbn [ok_or bind].
+    rewrite <- Ln at 1. rewrite split_first_app. cbn [ok_or bind].
+    destruct (xcp_open O key n (v2_pre enc n f) c t') as [m'|] eqn:E'; [|reflexivity].
+    exfalso. apply Hne. symmetry. exact (xcp_tag_unique O L _ _ _ _ _ _ _ _ Hopen E').
   Qed.
 
   Theorem v2_aad_refused key enc p f a : a <> [] -> v2_local_unseal O key enc p f a = Err ClaimsError.
